@@ -61,6 +61,9 @@ def plan(tier, seed):
             for klass in mod.CLASSES:
                 if klass not in getattr(mod, "NOT_ASSERTED", {}):
                     cases.append({"kind": "spec", "writer": w, "i": 0, "seed": seed, "klass": klass})
+    # coordinates of wavefunction files whose unit cannot be cross-checked by the reader's normalisation test
+    for i in range(3 if tier == "quick" else 40):
+        cases.append({"kind": "spec", "writer": "molden", "i": 1000 + i, "seed": seed, "klass": "distant_atoms_paren_units"})
     for p in PAIRS:
         cases.append({"kind": "pair", "a": p[0], "b": p[1]})
     return cases
